@@ -158,3 +158,47 @@ def record_scores(sel):
 
     sel._get_best_new_selection = rec
     return sel
+
+
+# ------------------------------------------------------------------ geometric lemma (proved once by the solver, then instantiated)
+_LEMMA_OK = {}
+
+
+def prove_pruning_lemma(m):
+    """for all x, s, l in R^m:  |s-l|^2 >= 4 |x-s|^2  ==>  |x-l|^2 >= |x-s|^2   (the triangle-inequality fact behind the
+    Voronoi pruning rule).  Proved by z3 (QF_NRA, s = 0 w.l.o.g. by translation invariance) once per dimension."""
+    if m in _LEMMA_OK:
+        return _LEMMA_OK[m]
+    import z3
+
+    x = [z3.Real(f"x{k}") for k in range(m)]
+    l = [z3.Real(f"l{k}") for k in range(m)]
+    nx = z3.Sum([v * v for v in x])
+    nl = z3.Sum([v * v for v in l])
+    dxl = z3.Sum([(x[k] - l[k]) * (x[k] - l[k]) for k in range(m)])
+    ok = False
+    for mk in (lambda: z3.SolverFor("QF_NRA"), lambda: z3.Solver()):
+        S = mk()
+        S.set("timeout", 60000)
+        S.add(nl - 4 * nx >= 0, dxl - nx < 0)
+        if S.check() == z3.unsat:
+            ok = True
+            break
+    _LEMMA_OK[m] = ok
+    return ok
+
+
+def add_pruning_lemmas(c, D, n, m):
+    """instances of the proved lemma over the independent distance terms D[i][j] for all distinct triples"""
+    if not prove_pruning_lemma(m):
+        return 0
+    k = 0
+    for i in range(n):
+        for s_ in range(n):
+            for l in range(n):
+                if len({i, s_, l}) < 3:
+                    continue
+                f = f_or(~_F(D[s_][l] - D[i][s_] * 4 >= 0), _F(D[i][l] - D[i][s_] >= 0))
+                c._add_pc(f)
+                k += 1
+    return k
